@@ -491,6 +491,10 @@ func TestVerif_C18_Sequences(t *testing.T) {
 					n := st
 					n.sub[s] = 2
 					rec(append(prefix, c18Op{Op: "addh", Sub: s}), n)
+					if sim.Thorough() && s == 0 {
+						// the first subscriber also adds handlers with a resync period of their own
+						rec(append(prefix, c18Op{Op: "addhr", Sub: s}), n)
+					}
 				}
 				if st.sub[s] == 2 {
 					n := st
